@@ -58,7 +58,10 @@ def tasks(tier, seed):
                     dd = dict(d, rm=rm)
                     ts.append(dict(kind='glue', name='glue/%s/neg%d/st%d' % (G.name_of(dd), neg, sticky), desc=dd, neg=neg, sticky=sticky))
     # stochastic-widened round_params: the intermediate must carry the extra digits the draw looks at
-    for d in [dict(fam='MPFloat', pmax=2), dict(fam='MPSFloat', pmax=2, emin=0), dict(fam='MPFixed', nmin=-1)]:
+    for d in [dict(fam='MPFloat', pmax=2), dict(fam='MPSFloat', pmax=2, emin=0), dict(fam='MPFixed', nmin=-1),
+              # bounded families (their round_params are separate code); ranges wide enough that the modelled results do not overflow
+              dict(fam='MPBFixed', nmin=-2, maxval=[0, 3, 5], ov='SATURATE'), dict(fam='Fixed', signed=True, scale=-1, nbits=8, ov='SATURATE'), dict(fam='SMFixed', scale=-1, nbits=8, ov='SATURATE'),
+              dict(fam='IEEE', es=3, nbits=6), dict(fam='MPBFloat', pmax=2, emin=-4, maxval=[0, 3, 3], ov='SATURATE')]:
         for k in (1, 2):
             for rm in ('RNE', 'RTZ', 'RAZ'):
                 for neg in (0, 1):
